@@ -101,14 +101,9 @@ func (c *Ctx) hashLeafContracts(rule string) {
 	if mc == nil || tr == nil {
 		c.Unresolved(rule, "canonicalizer.MarshalCanonical / jsoncanonicalizer.Transform")
 	} else {
-		t := c.SuccessTerm(mc, 0, nil).String()
-		want := []string{"Transform(phi(#0(assert<[]byte>($0)),jsonMarshal($0)))", "Transform(phi(jsonMarshal($0),#0(assert<[]byte>($0))))", "Transform(phi(assert<[]byte>($0),jsonMarshal($0)))", "Transform(phi(jsonMarshal($0),assert<[]byte>($0)))"}
-		ok := false
-		for _, w := range want {
-			if t == w {
-				ok = true
-			}
-		}
+		tt := c.SuccessTerm(mc, 0, nil)
+		t := tt.String()
+		ok := termIs(tt, "Transform(assert<[]byte>($0))", "Transform(jsonMarshal($0))")
 		c.Check(rule, "MarshalCanonical:contract", ok, mc.Pos(), "success term of MarshalCanonical = "+t+" (expected Transform of the []byte input or of encoding/json.Marshal(value))")
 	}
 }
@@ -202,9 +197,9 @@ func runC04(c *Ctx) {
 	wantC := "b64(mhEnc(H($1,H($1,JCS($0))),$1))"
 	d := "mhDec(b64dec($0))"
 	wantF := "b64(mhEnc(H(.Code(" + d + "),.Digest(" + d + ")),.Code(" + d + ")))"
-	c.Check("C04.P1", "GetRevealValue:term", tR.String() == wantR, getR.Pos(), "reveal(k,c) = "+tR.String()+" (expected "+wantR+")")
-	c.Check("C04.P1", "GetCommitment:term", tC.String() == wantC, getC.Pos(), "commitment(k,c) = "+tC.String()+" (expected "+wantC+")")
-	c.Check("C04.P1", "GetCommitmentFromRevealValue:term", tF.String() == wantF, fromR.Pos(), "commitmentFromReveal(r) = "+tF.String()+" (expected "+wantF+")")
+	c.Check("C04.P1", "GetRevealValue:term", termIs(tR, wantR), getR.Pos(), "reveal(k,c) = "+tR.String()+" (expected "+wantR+")")
+	c.Check("C04.P1", "GetCommitment:term", termIs(tC, wantC), getC.Pos(), "commitment(k,c) = "+tC.String()+" (expected "+wantC+")")
+	c.Check("C04.P1", "GetCommitmentFromRevealValue:term", termIs(tF, wantF), fromR.Pos(), "commitmentFromReveal(r) = "+tF.String()+" (expected "+wantF+")")
 	// identity: commitmentFromReveal(reveal(k,c)) == commitment(k,c) by rewriting
 	sub := substitute(tF, "$0", tR)
 	rw := rewriteDecEnc(sub)
@@ -215,8 +210,9 @@ func runC04(c *Ctx) {
 	c.hashLeafContracts("C04.K1")
 	// ComputeMultihash uses one code for hash choice and prefix
 	if cm := c.Fn("hashing", "ComputeMultihash"); cm != nil {
-		t := normalize(c.SuccessTerm(cm, 0, nil)).String()
-		c.Check("C04.K1", "ComputeMultihash:term", t == "mhEnc(H($0,$1),$0)", cm.Pos(), "ComputeMultihash(code,data) = "+t+" (expected mhEnc(H($0,$1),$0))")
+		tt := normalize(c.SuccessTerm(cm, 0, nil))
+		t := tt.String()
+		c.Check("C04.K1", "ComputeMultihash:term", termIs(tt, "mhEnc(H($0,$1),$0)"), cm.Pos(), "ComputeMultihash(code,data) = "+t+" (expected mhEnc(H($0,$1),$0))")
 	} else {
 		c.Unresolved("C04.K1", "hashing.ComputeMultihash")
 	}
@@ -313,6 +309,51 @@ func runC04(c *Ctx) {
 		c.Check("C04.T2", "GetCommitment:other-types-error", okAll, f.Pos(), "create and unknown types yield an error")
 	}
 	c.Min("C04.T2", 4+6)
+
+	// ---- T3 the reveal value an operation reports is the request's own (envelope) reveal value — the one that
+	// links to the previous commitment — and it is that very value which is checked against the signing key
+	opModel := c.NamedType(pModel, "Operation")
+	ivm := c.Fn("hashing", "IsValidModelMultihash")
+	for _, t := range []string{"update", "recover", "deactivate"} {
+		pf := c.parseFuncs()[t]
+		if pf == nil || opModel == nil || ivm == nil {
+			c.Unresolved("C04.T3", "Parse<"+t+">Operation / model.Operation / hashing.IsValidModelMultihash")
+			continue
+		}
+		c.Analysed(pf)
+		var stored []ssa.Value
+		for _, a := range allocsOf(pf, opModel) {
+			for _, fs := range storesInto(a) {
+				if fs.Field == "RevealValue" {
+					stored = append(stored, fs.Val)
+				}
+			}
+		}
+		okSrc := len(stored) == 1
+		src := ""
+		if okSrc {
+			src = c.Path(stored[0], nil)
+			okSrc = false
+			if ld, isLd := stored[0].(*ssa.UnOp); isLd && ld.Op == token.MUL {
+				if fa, isFA := ld.X.(*ssa.FieldAddr); isFA {
+					if pt, isP := fa.X.Type().Underlying().(*types.Pointer); isP {
+						if nt, isN := pt.Elem().(*types.Named); isN && strings.HasSuffix(nt.Obj().Name(), "Request") && fieldName(fa.X.Type(), fa.Field) == "RevealValue" {
+							okSrc = true
+						}
+					}
+				}
+			}
+		}
+		c.Check("C04.T3", t+":reported-reveal-value-is-the-request's", okSrc, pf.Pos(), "model.Operation.RevealValue = "+src+" (expected the RevealValue member of the decoded "+t+" request, one store)")
+		okChk := false
+		for _, cl := range callsTo(pf, ivm) {
+			if len(cl.Call.Args) == 2 && okSrc && c.Path(cl.Call.Args[1], nil) == src {
+				okChk = true
+			}
+		}
+		c.Check("C04.T3", t+":reported-reveal-value-is-the-checked-one", okChk, pf.Pos(), "the value handed to IsValidModelMultihash(signing key, ·) is the reveal value the operation reports")
+	}
+	c.Min("C04.T3", 6)
 	// commitments and reveal values hash the canonical JWK: the JCS constant/table rules are part of this check
 	c.jcsRules()
 	c.Assume("axioms: go-multihash Decode(Encode(x,c)) = (c,x); base64 decode(encode(x)) = x; hash functions are collision resistant; encoding/json emits every tagged field of jws.JWK")
